@@ -79,8 +79,10 @@ func (m *Module) String() string {
 // syntax to w.
 func (m *Module) WriteTo(w io.Writer) (n int64, err error) {
 	fw := &fmtWriter{w: w}
-	// Assign global IDs.
-	if err := m.AssignGlobalIDs(); err != nil {
+	// Assign global IDs; derived from the current position of each unnamed
+	// global, as the module may have been extended or edited since it was last
+	// printed.
+	if err := m.assignGlobalIDs(true); err != nil {
 		panic(fmt.Errorf("unable to assign globals IDs of module; %v", err))
 	}
 	// Assign metadata IDs.
@@ -323,14 +325,25 @@ func (u *UseListOrderBB) String() string {
 
 // ### [ Helper functions ] ####################################################
 
-// AssignGlobalIDs assigns IDs to unnamed global variables.
+// AssignGlobalIDs assigns IDs to unnamed global variables. An error is
+// returned if an unnamed global variable already has a (non-zero) ID which
+// differs from the ID implied by its position.
 func (m *Module) AssignGlobalIDs() error {
+	return m.assignGlobalIDs(false)
+}
+
+// assignGlobalIDs assigns IDs to unnamed global variables. If renumber is set,
+// previously assigned IDs are replaced by the ID implied by the current
+// position (used when printing, as a previous print has left IDs behind which
+// are stale once the module is extended or edited); otherwise they are
+// validated (used when explicit IDs of the input are checked).
+func (m *Module) assignGlobalIDs(renumber bool) error {
 	m.mu.Lock()
 	defer m.mu.Unlock()
 	id := int64(0)
 	setName := func(n namedVar) error {
 		if n.IsUnnamed() {
-			if n.ID() != 0 && id != n.ID() {
+			if !renumber && n.ID() != 0 && id != n.ID() {
 				want := id
 				got := n.ID()
 				return errors.Errorf("invalid global ID, expected %s, got %s", enc.GlobalID(want), enc.GlobalID(got))
